@@ -45,7 +45,7 @@ func runTwin(t *testing.T, sc *Scenario, tr *vh.Tracer) (hang bool) {
 		if err := src.Tag(bg, g.Descs[sc.Root], srcRef); err != nil {
 			t.Fatal(err)
 		}
-		dstm, err := newDst(t, sc.DstKind, nil)
+		dstm, err := newDst(t, sc.DstKind, nil, g, false)
 		if err != nil {
 			t.Fatal(err)
 		}
